@@ -66,7 +66,7 @@ CLAIMED = {
   technique=T + "header unit: fault-set oracle under every tolerance mask"),
  "C14": dict(
   text="try_recover from a seeded state: 1 junk byte (any non-id value) before a valid child that fits Root at its original size => Ok, cursor +1 exactly, known size +1, next header is the planted one; "
-       "arbitrary 3-byte remainder / nothing left: never backwards, never past the end, no panic, Err only EOF/ReadError; a zero byte is never swallowed as id padding (header unit). Two or more junk bytes: NOT covered (did not finish).",
+       "nothing left: position unchanged, EOF error, no panic; arbitrary 3-byte remainder (never backwards, never past the end, Err only EOF/ReadError): in C05's quick tier and C14's thorough tier; a zero byte is never swallowed as id padding (header unit). Two or more junk bytes: NOT covered (did not finish).",
   design_ref="DESIGN.md §6 C14", note="End-to-end 'all remaining tags as in the undamaged document' = post-state equality + C03/C06 steps (T5). Spec Mini.",
   technique=T + "try_recover unit from seeded iterator state"),
  "C15": dict(
